@@ -447,6 +447,20 @@ def decode_dataclass(ti, d, tvmap, o):
             kwargs[n] = val  # documented field option: the value is taken over unchanged
             continue
         des = f.metadata.get("deserialize")
+        if des in ("as_dict", "as_list") and tinfo.info(ft, tv).kind == "namedtuple":
+            # documented field option: the named tuple engine of this field
+            import copy as _copy
+
+            o2 = _copy.copy(o)
+            o2.namedtuple_as_dict = des == "as_dict"
+            try:
+                kwargs[n] = ref_decode(ft, val, tv, o2)
+            except RefError as e:
+                raise RefError("invalid", field_name=n, field_value=val, holder=cls) from e
+            except Exception as e:
+                _cf(e)
+                raise RefError("invalid", field_name=n, field_value=val, holder=cls) from e
+            continue
         if callable(des):
             # documented field option: the callable replaces the type's own deserialization
             try:
